@@ -5,11 +5,43 @@
 //   D <hex>                                dump string of a following, otherwise empty, run "DUMP; -all"
 //   F <errors> <hex error string>          result of that observing run (pending requests of a stopped call run here)
 //   C <n> <name>...                        GetComponentCount / GetComponent
-// ops:  new <hex database path> | run <hex input> | peek <kind> <n>  (friend access: does the engine map hold key n?)
-#include "friend.hpp"
+// ops:  new <hex database path> | run <hex input> | neg  (friend access: negative keys of every map -> G kind:n,n ...)
+// own friend shim (Phreeqc.h: `friend class TestIPhreeqc;`, IPhreeqc.hpp the same under CPPUNIT): read access to the maps
+#ifndef CPPUNIT
+#define CPPUNIT 1
+#endif
 #include "hx.hpp"
 #include "IPhreeqc.hpp"
+#include "Phreeqc.h"
+#include "Solution.h"
+#include "PPassemblage.h"
+#include "Exchange.h"
+#include "Surface.h"
+#include "SSassemblage.h"
+#include "GasPhase.h"
+#include "cxxKinetics.h"
+#include "cxxMix.h"
+#include "Reaction.h"
+#include "Temperature.h"
+#include "Pressure.h"
 #include <memory>
+#include <sstream>
+class TestIPhreeqc {
+public:
+  template<class M> static void keys(std::ostringstream& o, const char* name, const M& m){
+    o<<" "<<name<<":"; bool first=true;
+    for(auto it=m.begin(); it!=m.end(); ++it) if(it->first<0){ if(!first) o<<","; o<<it->first; first=false; }
+  }
+  // negative keys of every map: the numbers the engine (or the user) files entities under that DUMP never shows
+  static std::string negkeys(IPhreeqc* p){
+    Phreeqc* e = p->PhreeqcPtr; std::ostringstream o;
+    keys(o,"solution",e->Rxn_solution_map); keys(o,"pp",e->Rxn_pp_assemblage_map); keys(o,"exchange",e->Rxn_exchange_map);
+    keys(o,"surface",e->Rxn_surface_map); keys(o,"ss",e->Rxn_ss_assemblage_map); keys(o,"gas",e->Rxn_gas_phase_map);
+    keys(o,"kinetics",e->Rxn_kinetics_map); keys(o,"mix",e->Rxn_mix_map); keys(o,"reaction",e->Rxn_reaction_map);
+    keys(o,"temperature",e->Rxn_temperature_map); keys(o,"pressure",e->Rxn_pressure_map);
+    return o.str();
+  }
+};
 
 static const char* DUMPALL = "DUMP\n-all\nEND\n";
 
@@ -40,6 +72,8 @@ int main(){
       std::cout<<"C "<<n;
       for(size_t i=0;i<n;i++) std::cout<<" "<<p->GetComponent((int)i);
       std::cout<<"\n";
+    } else if(op=="neg" && p){
+      std::cout<<"G"<<TestIPhreeqc::negkeys(p.get())<<"\n";
     } else std::cout<<"bad-op\n";
     std::cout.flush();
   }
